@@ -224,6 +224,8 @@ impl World {
                 let grids = param(tokens, "grids")?;
                 let mut total = 0.0;
                 let mut any = false;
+                // a grid whose values the algebra cannot express takes part in the result
+                let mut opaque = false;
                 for g in grids.split(',') {
                     let g = g.trim();
                     let optional = g.starts_with('@');
@@ -233,6 +235,9 @@ impl World {
                     }
                     match self.grid_lookup(c, g) {
                         Some(v) => {
+                            if g.ends_with(".gsb") {
+                                opaque = true;
+                            }
                             // first grid containing the point wins; all our grids cover the probes
                             if !any {
                                 total = v as f64;
@@ -245,6 +250,9 @@ impl World {
                             }
                         }
                     }
+                }
+                if opaque {
+                    return Some(Val::Opaque);
                 }
                 Some(Val::Exact([0.0, 0.0, -total, 0.0]))
             }
